@@ -6,6 +6,8 @@ from sa import rules_fault as RF
 from sa import report, rules_reader as RR, rules_read as RD, rules_order as RO
 from sa import rules_extra as RX
 
+from sa import rules_r12 as R12
+
 
 def run(ctx, repo):
     ctx.explanation = (
@@ -31,6 +33,7 @@ def run(ctx, repo):
     ctx.call(RF.r_append_only_stream, repo)
     XL.reader_positions(ctx, repo)
 
+    ctx.call(R12.r_update_postcondition, repo)
 
 if __name__ == '__main__':
     sys.exit(report.main('C07', 'other', run))
